@@ -420,10 +420,12 @@ def sh_visit(ctx, out, name, attr=None, rule="SH.visit"):
 def _sh_visit(ctx, out, name, attr, rule, bodies):
     attr = attr or name
     n = 0
+    kinds = set()
     for body in bodies:
         cfg = cfg_of(body)
         E = ctx.expr(body)
         for h, blocks, kind in outer_block_loops(ctx, body):
+            kinds.add(kind)
             # the driving next()
             for x in blocks:
                 t = body.blocks[x]["term"]
@@ -474,6 +476,10 @@ def _sh_visit(ctx, out, name, attr, rule, bodies):
                     else:
                         out.viol(rule, "%s|%s|missing-attr-not-continue" % (rule, name), ctx.where(body, t["span"]),
                                  "a block without `%s` does not simply continue with the next block of the file: blocks after it would not be validated" % attr)
+    if "blocks" not in kinds:
+        # the floor below could be met by the file loop alone: a reading in which the per-block iteration is
+        # not a loop (a pipeline ending in `collect`, say) decides nothing about it
+        out.viol(rule, "%s|%s|no-block-loop" % (rule, name), "-", "no per-block loop found in this reading of the `%s` validator: whether every block is visited cannot be decided on it" % name)
     out.inst(rule + "." + name, n, 2, note="block/file loops iterate the collections directly; missing attribute -> continue")
 
 
